@@ -209,9 +209,10 @@ def r4(ctx, fs):
                 R_step = step[1][2] if isinstance(step, tuple) and step[0] == '[]' and isinstance(step[1], tuple) and step[1][1] == T + '::_preds' and step[2] == v else None
                 # start value
                 START = None
-                for n in f.nodes():
-                    if n.get('k') == 'VarDecl' and n.get('name') == v and isinstance(n.get('init'), dict) and _before(n, w):
-                        START = canon(n['init'], env)
+                tg = asg[0].target
+                dn = f.decl(tg.get('dloc')) if isinstance(tg, dict) and tg.get('k') == 'DeclRefExpr' else None      # the declaration of the walk variable itself
+                if dn is not None and isinstance(dn.get('init'), dict):
+                    START = canon(dn['init'], env)
                 # look-up
                 finds = [n for n in walk(body) if n.get('k') == 'CXXMemberCallExpr' and (n.get('callee_name') or '').endswith('::find') and
                          canon(n['c'][0]['c'][0], env, subst=False) == T + '::dist_constr']
